@@ -55,7 +55,9 @@ namespace rkcommon {
 
     void FixedBufferWriter::write(const void *mem, size_t size)
     {
-      if (cursor + size >= buffer->size()) {
+      // accept exactly what fits in the remaining capacity (an exact fit is
+      // fine); overflow-safe: 'cursor + size' may wrap around for huge sizes
+      if (cursor > buffer->size() || size > buffer->size() - cursor) {
         throw std::runtime_error(
             "FixedBufferWriter::write size exceeds buffer");
       }
@@ -66,7 +68,7 @@ namespace rkcommon {
 
     void *FixedBufferWriter::reserve(size_t size)
     {
-      if (cursor + size >= buffer->size()) {
+      if (cursor > buffer->size() || size > buffer->size() - cursor) {
         throw std::runtime_error(
             "FixedBufferWriter::reserve size exceeds buffer");
       }
